@@ -83,7 +83,7 @@ Theorem vector_compose_rec_spec fuel : ∀ s f_ level_sub cache r s',
   match r with
   | Ok (x, cache') => valid s' x ∧ vcache_ok s' level_sub cache' ∧
         ∀ a, D s' x a = D s f_ (vsubst s level_sub a)
-  | Err e => e = ENeedsReordering ∧ is_Some (last_len s)
+  | Err e => benign s e
   end.
 Proof.
   induction fuel as [|fu IH]; intros s f_ ls cache r s' HI Hf Hnr Hls Hc Hfuel; [lia|].
@@ -112,7 +112,7 @@ Proof.
   apply IH in Ep' as (HI1&He1&Hf1&Hp); [|done|done|done|done|done|lia].
   destruct rp as [[p c1]|e]; cycle 1.
   { rewrite (bind_err _ _ _ _ _ Ep). intros [= <- <-].
-    destruct Hp as [-> ?]. by split_and!. }
+    by split_and!. }
   rewrite (bind_ok _ _ _ _ _ Ep). cbv beta iota.
   destruct Hp as (Hpv&Hc1&HpD).
   assert (Hnv1 : nvars s1 = nvars s) by (by apply extends_nvars).
@@ -126,8 +126,7 @@ Proof.
      |rewrite Hnv1, (lvl_extends s s1) by done; lia].
   destruct rq as [[q c2]|e]; cycle 1.
   { rewrite (bind_err _ _ _ _ _ Eq). intros [= <- <-].
-    destruct Hq as [-> Hll']. split_and!; [done|by etrans|by etrans|done|].
-    by apply (frame_last s s1). }
+    split_and!; [done|by etrans|by etrans|]. apply (benign_frame s s1); [done|apply Hq]. }
   rewrite (bind_ok _ _ _ _ _ Eq). cbv beta iota.
   destruct Hq as (Hqv&Hc2&HqD).
   assert (He02 : extends s s2) by (by etrans).
@@ -144,7 +143,7 @@ Proof.
   assert (Hg : Inv s3 ∧ extends s2 s3 ∧ frame s2 s3 ∧
             match rg with
             | Ok g => valid s3 g ∧ ∀ a, D s3 g a = vsubst s ls a i
-            | Err e => e = ENeedsReordering ∧ is_Some (last_len s2)
+            | Err e => benign s2 e
             end).
   { subst mg. unfold vsubst. destruct (ls !! i) as [g|] eqn:Eli.
     - injection Eg as <- <-. split; [done|split; [reflexivity|split; [reflexivity|]]].
@@ -155,14 +154,13 @@ Proof.
          |rewrite (lvl_term s2 HI2) by done; rewrite (extends_nvars s s2) by done; lia
          |rewrite (lvl_term s2 HI2) by done; rewrite (extends_nvars s s2) by done; lia].
       split; [done|split; [done|split; [done|]]].
-      destruct rg as [g|e]; [|by destruct Hg as (?&?&_)].
+      destruct rg as [g|e]; [|by destruct Hg as (?&_)].
       destruct Hg as (Hgv&_&HgD). split; [done|].
       intros a. rewrite HgD, D_1, D_m1 by done. by destruct (a i). }
   destruct Hg as (HI3&He3&Hf3&Hg).
   destruct rg as [g|e]; cycle 1.
   { rewrite (bind_err _ _ _ _ _ Eg). intros [= <- <-].
-    destruct Hg as [-> Hll']. split_and!; [done|by etrans|by etrans|done|].
-    by apply (frame_last s s2). }
+    split_and!; [done|by etrans|by etrans|]. apply (benign_frame s s2); [done|apply Hg]. }
   rewrite (bind_ok _ _ _ _ _ Eg).
   destruct Hg as (Hgv&HgD).
   assert (He03 : extends s s3) by (by etrans).
@@ -176,8 +174,7 @@ Proof.
      |by apply (no_reorder_frame s s3)].
   destruct rr as [x|e]; cycle 1.
   { rewrite (bind_err _ _ _ _ _ Er). intros [= <- <-].
-    destruct Hr as [-> Hll']. split_and!; [done|by etrans|by etrans|done|].
-    by apply (frame_last s s3). }
+    split_and!; [done|by etrans|by etrans|]. apply (benign_frame s s3); [done|apply Hr]. }
   rewrite (bind_ok _ _ _ _ _ Er).
   destruct Hr as (Hxv&_&HxD).
   intros [= <- <-].
@@ -280,7 +277,7 @@ Theorem copy_bdd_rec_spec_occ fuel : ∀ s0 src s u level_map cache r s',
   | Ok (x, cache') => valid s' x ∧ ccache_ok s0 s' level_map cache' ∧
         ((0 < x)%Z ↔ (0 < u)%Z) ∧
         ∀ a, D s' x a = D s0 u (lmap level_map a)
-  | Err e => e = ENeedsReordering ∧ is_Some (last_len s)
+  | Err e => benign s e
   end.
 Proof.
   induction fuel as [|fu IH];
@@ -317,7 +314,7 @@ Proof.
   { intros l Hocc. apply Hlm. by apply (occ_lo s0 u t). }
   destruct rp as [[p c1]|e]; cycle 1.
   { rewrite (bind_err _ _ _ _ _ Ep). intros [= <- <-].
-    destruct Hp as [-> ?]. by split_and!. }
+    by split_and!. }
   rewrite (bind_ok _ _ _ _ _ Ep). cbv beta iota.
   destruct Hp as (Hpv&Hc1&Hps&HpD).
   assert (Hnv1 : nvars s1 = nvars s) by (by apply extends_nvars).
@@ -330,8 +327,7 @@ Proof.
   { intros l Hocc. rewrite Hnv1. apply Hlm. by apply (occ_hi s0 u t). }
   destruct rq as [[q c2]|e]; cycle 1.
   { rewrite (bind_err _ _ _ _ _ Eq). intros [= <- <-].
-    destruct Hq as [-> Hll']. split_and!; [done|by etrans|by etrans|done|].
-    by apply (frame_last s s1). }
+    split_and!; [done|by etrans|by etrans|]. apply (benign_frame s s1); [done|apply Hq]. }
   rewrite (bind_ok _ _ _ _ _ Eq). cbv beta iota.
   destruct Hq as (Hqv&Hc2&Hqs&HqD).
   assert (He02 : extends s s2) by (by etrans).
@@ -360,8 +356,7 @@ Proof.
      |rewrite (lvl_term s2 HI2) by done; lia].
   destruct rg as [g|e]; cycle 1.
   { rewrite (bind_err _ _ _ _ _ Eg). intros [= <- <-].
-    destruct Hg as (->&Hll'&_). split_and!; [done|by etrans|by etrans|done|].
-    by apply (frame_last s s2). }
+    split_and!; [done|by etrans|by etrans|]. apply (benign_frame s s2); [done|apply Hg]. }
   rewrite (bind_ok _ _ _ _ _ Eg).
   destruct Hg as (Hgv&_&HgD0).
   assert (HgD : ∀ a, D s3 g a = a j).
@@ -379,8 +374,7 @@ Proof.
     [|done|done|done|done|by apply (no_reorder_frame s s3)].
   destruct rr as [x|e]; cycle 1.
   { rewrite (bind_err _ _ _ _ _ Er). intros [= <- <-].
-    destruct Hr as [-> Hll']. split_and!; [done|by etrans|by etrans|done|].
-    by apply (frame_last s s3). }
+    split_and!; [done|by etrans|by etrans|]. apply (benign_frame s s3); [done|apply Hr]. }
   rewrite (bind_ok _ _ _ _ _ Er).
   destruct Hr as (Hxv&_&HxD0).
   assert (HxD1 : ∀ a, D s4 x a = if a j then D s2 q a else D s1 p a).
@@ -425,7 +419,7 @@ Theorem copy_bdd_rec_spec fuel : ∀ s0 src s u level_map cache r s',
   | Ok (x, cache') => valid s' x ∧ ccache_ok s0 s' level_map cache' ∧
         ((0 < x)%Z ↔ (0 < u)%Z) ∧
         ∀ a, D s' x a = D s0 u (lmap level_map a)
-  | Err e => e = ENeedsReordering ∧ is_Some (last_len s)
+  | Err e => benign s e
   end.
 Proof.
   intros s0 src s u lm cache r s' HI0 HI Hu Hnr Hsrc Hlm.
@@ -520,13 +514,13 @@ Proof.
 Qed.
 
 Theorem rename_spec s u dvars r s' :
-  Inv s → valid s u → last_len s = None →
+  Inv s → valid s u → last_len s = None → max_nodes s = None →
   rename u dvars s = (r, s') →
   (∀ x y, (x, y) ∈ dvars → is_Some (vars s !! y)) →
   ∃ x, r = Ok x ∧ Inv s' ∧ extends s s' ∧ valid s' x ∧
     ∀ a, D s' x a = D s u (lmap (rename_level_map s dvars) a).
 Proof.
-  intros HI Hu Hoff Hrun Hdecl. unfold rename in Hrun.
+  intros HI Hu Hoff Hmx Hrun Hdecl. unfold rename in Hrun.
   apply try_to_reorder_inert in Hrun as (r1&s1&Hrun&Hcase).
   set (s0 := s <| rctx := true |>) in *.
   assert (HI0 : Inv s0) by (by apply Inv_rctx).
@@ -577,7 +571,7 @@ Proof.
   apply (copy_bdd_rec_spec _ s0) in Ec' as (HI2&He2&Hf2&Hr);
     [|done|done|done|by left|by right|done|done|lia].
   destruct rc as [[x c]|e]; cycle 1.
-  { destruct Hr as [_ [n Hn]]. change (last_len s0) with (last_len s) in Hn. congruence. }
+  { by destruct (benign_never s0 e Hoff Hmx). }
   rewrite (bind_ok _ _ _ _ _ Ec) in Hrun'. unfold ret in Hrun'. injection Hrun' as <- <-.
   destruct Hcase as [[? _]|[-> ->]]; [done|].
   destruct Hr as (Hxv&_&_&HxD). exists x.
@@ -599,13 +593,13 @@ Qed.
 
 (** only the variables in the support of [u] need to be declared in the target *)
 Theorem copy_bdd_spec_occ src s u r s' :
-  Inv src → Inv s → valid src u → last_len s = None →
+  Inv src → Inv s → valid src u → last_len s = None → max_nodes s = None →
   (∀ v l, vars src !! v = Some l → occurs src u l → is_Some (vars s !! v)) →
   copy_bdd src u s = (r, s') →
   ∃ x, r = Ok x ∧ Inv s' ∧ extends s s' ∧ valid s' x ∧
     ∀ ρ, denv s' x ρ = denv src u ρ.
 Proof.
-  intros HIs HI Hu Hoff Hdecl Hrun. unfold copy_bdd in Hrun. rewrite bind_get in Hrun.
+  intros HIs HI Hu Hoff Hmx Hdecl Hrun. unfold copy_bdd in Hrun. rewrite bind_get in Hrun.
   set (lm := copy_level_map src s) in *.
   (* a level that occurs is mapped to the level of the same name *)
   assert (Hlm : ∀ l, occurs src u l → ∃ v l', vars src !! v = Some l ∧
@@ -621,7 +615,7 @@ Proof.
     [|done|done|done|by right|by left| |done|lia]; cycle 1.
   { intros l Hocc. destruct (Hlm l Hocc) as (v&l'&_&_&?&?). by exists l'. }
   destruct rc as [[x c]|e]; cycle 1.
-  { destruct Hr as [_ [n Hn]]. congruence. }
+  { by destruct (benign_never s e Hoff Hmx). }
   rewrite (bind_ok _ _ _ _ _ Ec) in Hrun. unfold ret in Hrun. injection Hrun as <- <-.
   destruct Hr as (Hxv&_&_&HxD). exists x. split_and!; try done.
   intros ρ. unfold denv. rewrite HxD. apply D_indep_occ; [done|done|].
@@ -632,12 +626,12 @@ Proof.
 Qed.
 
 Theorem copy_bdd_spec src s u r s' :
-  Inv src → Inv s → valid src u → last_len s = None →
+  Inv src → Inv s → valid src u → last_len s = None → max_nodes s = None →
   (∀ v l, vars src !! v = Some l → is_Some (vars s !! v)) →
   copy_bdd src u s = (r, s') →
   ∃ x, r = Ok x ∧ Inv s' ∧ extends s s' ∧ valid s' x ∧
     ∀ ρ, denv s' x ρ = denv src u ρ.
 Proof.
-  intros HIs HI Hu Hoff Hdecl. apply copy_bdd_spec_occ; try done.
+  intros HIs HI Hu Hoff Hmx Hdecl. apply copy_bdd_spec_occ; try done.
   intros v l Hv _. by apply (Hdecl v l).
 Qed.
